@@ -235,7 +235,9 @@ def make(**params):
     return Pack(**params)
 
 
-def job(alg, n, **kw):
+def job(alg, n, mandatory=True, **kw):
     params = dict(alg=alg, n=n, **kw)
     tag = ' '.join('%s=%s' % (a, b) for a, b in sorted(kw.items()) if a not in ('checks',) and b not in (None,))
-    return {'id': '%s n=%d %s' % (alg, n, tag), 'factory': 'harness.pack:make', 'params': params}
+    j = {'id': '%s n=%d %s' % (alg, n, tag), 'factory': 'harness.pack:make', 'params': params}
+    if not mandatory: j['mandatory'] = False
+    return j
